@@ -39,3 +39,16 @@ Proof. vm_compute. repeat split. Qed.
 Print Assumptions C08_accounting.
 Print Assumptions C08_zero_when_nothing_held.
 Print Assumptions C08_changes_only_on_acquire_release.
+
+(* ---- tie to the source text: allocated_bytes() reads the current footer's running total, and
+   reset() sets it to the kept chunk's size minus the footer (the site of finding F1) ---- *)
+From BV Require Import RustSem ConstsActual LeafActual LeafActualOk.
+From Coq Require Import String.
+Open Scope string_scope.
+Open Scope N_scope.
+Theorem C08_source_accounting : forall m start ptr lsize ab lim, start <= ptr -> actual_footer <= lsize ->
+  let en := List.app (self_full start ptr lsize ab lim) (cenv m) in
+  call_fn src_fns en "allocated_bytes" [] = Ret (VN ab) /\
+  call_fn src_fns en "reset_allocated_bytes" [] = Ret (VN (lsize - actual_footer)).
+Proof. intros m start ptr lsize ab lim H1 H2 en. exact (proj2 (src_getters_ok m start ptr lsize ab lim H1 H2)). Qed.
+Print Assumptions C08_source_accounting.
